@@ -53,7 +53,8 @@ class Gen:
         self.pushed = []
         self.ops = []
         self.nostate = False    # set after a huge cursor move: a later access would make the WASM host allocate terabytes
-        self.bad = style == "malformed"
+        self.bad = style in ("malformed", "wasmbad")
+        self.wasm_only = style == "wasmbad"
 
     def word(self):
         r = self.r
@@ -85,6 +86,10 @@ class Gen:
     def hhandle(self):
         """a heap handle argument: mostly live, sometimes released, in the malformed stream also foreign"""
         r = self.r
+        if self.wasm_only and r.chance(1, 3):
+            # WASM host only: words that are no handle at all (zero, even version fields, ordinals not returned yet, numbers)
+            return r.choice(["n0", "n0", "n2", "n100000000", "n100000002", "n200000000", "n" + self.word(), "n%x" % r.below(2 ** 34),
+                             "h%d" % (len(self.heap) + r.below(3)), "a%d" % r.below(3)])
         if self.bad and r.chance(1, 4):
             # forged handles keep an ODD version field (the low 32 bits): slotmap reads a VACANT slot as if it were occupied
             # when a key carries that slot's even version (undefined behaviour: the harness must not provoke it, and an
@@ -265,6 +270,8 @@ class Gen:
                 continue
             if st in ("mixed", "malformed"):
                 st = r.choice(["heap", "state", "array"])
+            if st == "wasmbad":
+                st = r.choice(["heap", "heap", "heap", "array"])
             if st == "heap":
                 self.heap_op()
             elif st == "state":
@@ -284,7 +291,7 @@ class Gen:
                     for i in range(a[1]):
                         self.ops.append("AG:a%d:%s:%d" % (k, fhex(float(i)), a[0]))
         mode = "I" if r.chance(1, 2) else "T"
-        return "S=%d;N=%d;R=%s;M=%s;%s" % (self.S, self.now, SR, mode, ";".join(self.ops))
+        return "S=%d;N=%d;R=%s;M=%s;%s%s" % (self.S, self.now, SR, mode, "O=W;" if self.wasm_only else "", ";".join(self.ops))
 
 
 # ------------------------------------------------------------------------------------------------
@@ -403,7 +410,7 @@ class UGen:
         return "S=0;N=0;R=%s;M=%s;Y=%s;%s" % (SR, mode, "~".join(ty_show(t) for t in self.tt), ";".join(self.ops))
 
 
-STYLES = ["heap", "state", "state", "array", "array", "mixed", "mixed", "malformed", "malformed", "trait", "usersum"]
+STYLES = ["heap", "state", "state", "array", "array", "mixed", "mixed", "malformed", "malformed", "trait", "usersum", "wasmbad"]
 
 
 def gen_case(rng):
@@ -436,6 +443,11 @@ FIXED = [
      HDR + "AG:n0:0:1", "Fh", "w0"),
     ("runtime_get_now / samplerate through the VM trait are constants (differs_now)", "S=0;N=7;R=%s;M=T;NW;SR" % SR,
      "w0;w40e7700000000000", "w%s;w%s" % (fhex(7.0), SR)),
+    ("REPAIRED (finding P5): a word that is no heap handle on the WASM host (zero, no such slot, released and re-used slot) is "
+     "an invalid handle; before the repair the zero word read slotmap's vacant sentinel slot: SIGSEGV "
+     "(C01_prims_ex_wasm_bad_heap_word_invalid)",
+     "S=0;N=0;R=%s;M=T;O=W;HA:1;RL:h0;HA:1;RT:n0;RL:n2;RT:n100000001;LD:n0:1" % SR,
+     "", "h100000001;c0;h300000001;i;i;i;Fh"),
     ("usersum_clone retains the boxes inside a value on the VM, does nothing on the WASM host (usersum_differs)",
      "S=0;N=0;R=%s;M=I;Y=S1(-/T(N1/A1));BA:n0;UC:n1,n3ff0000000000000,h0:0;RL:h0;LD:h0:1" % SR,
      "h100000001;u;c1;w0", "h100000001;u;c0;Fh"),
@@ -510,7 +522,11 @@ def run_impl(exe, lines):
 # the property on the implementation's own answers
 # ------------------------------------------------------------------------------------------------
 def op_list(line):
-    return [p for p in line.split(";")[3:] if p and not p.startswith("M=") and not p.startswith("Y=")]
+    return [p for p in line.split(";")[3:] if p and p[:2] not in ("M=", "Y=", "O=")]
+
+
+def wasm_only(line):
+    return ";O=W;" in line
 
 
 def related(spec_res, impl_res, op, tabs):
@@ -606,7 +622,10 @@ def judge(line, m, a):
     if "error" in a or "error" in m:
         return [("C", "input error: %s / %s" % (a.get("error"), m.get("error")))], {}
     trait_case = any(o[:2] in ("TG", "TS", "UC", "UR") for o in op_list(line))   # operations outside the contract language
-    if a["vm"] != m["vm"]:
+    wo = wasm_only(line)
+    if wo:
+        pass
+    elif a["vm"] != m["vm"]:
         k = next((i for i, (x, y) in enumerate(zip(a["vm"], m["vm"])) if x != y), min(len(a["vm"]), len(m["vm"])))
         bad.append(("C", "VM: model (Prims/Vm.v) and implementation differ at step %d: model %s, implementation %s"
                     % (k, m["vm"][k] if k < len(m["vm"]) else "<end>", a["vm"][k] if k < len(a["vm"]) else "<end>")))
@@ -620,7 +639,7 @@ def judge(line, m, a):
         bad.append(("C", "WASM: final state storage differs: model %s, implementation %s" % (m["wast"], a["wast"])))
     info = {}
     if not trait_case:
-        v, dv, nv = check_refines(line, m, a["vm"], m["pv"], "the real VM")
+        v, dv, nv = (None, None, 0) if wo else check_refines(line, m, a["vm"], m["pv"], "the real VM")
         w, dw, nw = check_refines(line, m, a["wasm"], m["pw"], "the real WASM host")
         if v:
             bad.append(("P", v))
@@ -628,15 +647,19 @@ def judge(line, m, a):
             bad.append(("P", w))
         info = {"vm_diff": dv, "wasm_diff": dw, "vm_steps": nv, "wasm_steps": nw,
                 "both": all(f == "1" for f in m["pv"]) and all(f == "1" for f in m["pw"])}
-        if info["both"] and not v and not w and not words_eq(a["vmst"], a["wast"]):
+        if info["both"] and not wo and not v and not w and not words_eq(a["vmst"], a["wast"]):
             bad.append(("P", "hypotheses hold for both, yet the final state words differ: VM %s, WASM %s" % (a["vmst"], a["wast"])))
     return bad, info
 
 
 def safe(line):
-    """False when the sequence would make the REAL heap code read a vacant slot-map slot (undefined behaviour, garbage answers):
-    a heap-handle argument whose raw word has an even version field — the word 0 an ordinal resolves to before it has been
-    returned, or a forged even word.  Generated sequences are safe by construction; shrinking must stay inside."""
+    """False when the sequence would make the VM's heap code read a vacant slot-map slot (undefined behaviour, garbage answers):
+    the VM transmutes a handle word into a key, so a heap-handle argument whose low 32 bits (the version field) are even — the
+    word 0 an ordinal resolves to before it has been returned, or a forged even word — names a vacant slot.  The WASM host
+    converts with KeyData::from_ffi since the repair of finding P5 (every word is safe there): sequences marked O=W run on the
+    WASM host only and may contain anything.  Generated sequences are safe by construction; shrinking must stay inside."""
+    if wasm_only(line):
+        return True
     nh = na = 0
     for o in op_list(line):
         p = o.split(":")
@@ -661,7 +684,9 @@ def safe(line):
 
 def shrink(line, fails, budget=150):
     parts = line.split(";")
-    nh = 5 if len(parts) > 4 and parts[4].startswith("Y=") else 4
+    nh = 4
+    while nh < len(parts) and parts[nh][:2] in ("Y=", "O="):
+        nh += 1
     head, ops = parts[:nh], parts[nh:]
     changed = True
     while changed and budget > 0:
